@@ -291,5 +291,13 @@ Definition generate_paths (fuel : nat) (g : graph) (root : nat) (lr0 lv0 : amap)
 
 End Model.
 
+(* what a caller of generate_paths() on a freshly built graph observes *)
+Definition gp_entries (V : variant) (fuel : nat) (g : graph) (root : nat)
+  : option (list entry * res unit) :=
+  match generate_paths V fuel g root aempty aempty with
+  | Ok (_, r) => Some r
+  | _ => None
+  end.
+
 Definition V_pinned := mkVariant false false.
 Definition V_fixed := mkVariant true true.
